@@ -1,5 +1,5 @@
 SHARDING = {"dir": "adder/sharding", "pkgname": "sharding"}
-FILES = ["adder_sharding/c13_rig_test.go", "adder_sharding/c13_synth_test.go"]
+FILES = ["adder_sharding/c13_rig_test.go", "adder_sharding/c13_synth_test.go", "adder_sharding/c13_files_test.go"]
 
 SPEC = {
     "go": [
@@ -7,7 +7,10 @@ SPEC = {
              timeout_quick=600, timeout_thorough=3000),
         dict(SHARDING, files=FILES, test="TestVerifC13Single", n_quick=200, n_thorough=6000, shards_quick=2, shards_thorough=8,
              timeout_quick=600, timeout_thorough=3000),
+        dict(SHARDING, files=FILES, test="TestVerifC13Files", n_quick=60, n_thorough=1500, shards_quick=4, shards_thorough=12,
+             timeout_quick=600, timeout_thorough=3000),
     ],
+    "tags": {1: "unixfs-balanced-first-leaf-error-swallowed"},
     "rule": "synthetic importer streams (1..30 raw / dag-pb nodes, duplicates, links to earlier nodes, sizes around the shard limit: "
             "sum = limit-1/limit/limit+1, single block of limit-1/limit/limit+1, empty blocks, limit 0..2; 5983..11969 small nodes around "
             "MaxLinks and 2*MaxLinks) x allocation scripts (1..4 lists of 1..5 peers, errors, empty lists) x replication factors "
